@@ -99,6 +99,10 @@ def generate(rng, tier, idx):
             # the update opens it, and is back - mtime preserved - right after the run (an editor's rename-and-replace)
             same = [o['p'] for o in ops if o['k'] == 'same' and o['p'] in live]
             rnd['vanish'] = rng.choice(same) if same else rng.choice(live)
+        elif rng.random() < 0.2:
+            # a second, unrelated tree follows on the same command line; its TIMESTAMP lies far in the future - each tree is
+            # scanned against its OWN previous TIMESTAMP
+            rnd['second_tree'] = True
         elif ri < n_rounds - 1 and rng.random() < 0.15:
             # an object that no update can record (named pipe, a name that is not valid UTF-8) lies in a visible directory
             # during this round's updates and is gone afterwards: both updates refuse; the modifications of this round are
@@ -243,11 +247,22 @@ def execute(sc):
                 base_args += ['-c', str(sc['opts']['watermark'])]
             tz = sc.get('tz', 'UTC0')
 
-            def upd(root, extra, opi):
+            def upd(root, extra, opi, second=False):
                 state['scan_start'] = None
+                roots = [root]
+                if second:
+                    z = root + '-second'
+                    if not os.path.isdir(z):
+                        _o['os.mkdir'](z)
+                        with _o['open'](os.path.join(z, 'z'), 'w') as f_:
+                            f_.write('second tree')
+                    with _o['open'](os.path.join(z, 'Manifest'), 'w') as f_:
+                        f_.write('TIMESTAMP 2038-01-01T00:00:00Z\nDATA z 11\n')
+                    roots.append(z)
+                    counters['updates_naming_a_second_tree'] = counters.get('updates_naming_a_second_tree', 0) + 1
                 with seam:
                     seam.begin_op(opi)
-                    c = run_cli(['update'] + extra + base_args + [root], tz=tz)
+                    c = run_cli(['update'] + extra + base_args + roots, tz=tz)
                 return cli_as_call(c), state['scan_start']
 
             # round 0: both get a TIMESTAMP
@@ -385,10 +400,10 @@ def execute(sc):
                             obst_paths.append(op_)
                         except OSError:
                             pass
-                rA, ssA = with_vanish('A', A, lambda: upd(A, ['-i'] + (['-t'] if rnd.get('explicit_t') else []), opi))
+                rA, ssA = with_vanish('A', A, lambda: upd(A, ['-i'] + (['-t'] if rnd.get('explicit_t') else []), opi, second=bool(rnd.get('second_tree'))))
                 opi += 1
                 seam.hook = hook_scanstart
-                rB, ssB = with_vanish('B', B, lambda: upd(B, (['-t'] if rnd.get('explicit_t') else []), opi))
+                rB, ssB = with_vanish('B', B, lambda: upd(B, (['-t'] if rnd.get('explicit_t') else []), opi, second=bool(rnd.get('second_tree'))))
                 opi += 1
                 for op_ in obst_paths:
                     _o['os.unlink'](op_)
